@@ -357,6 +357,8 @@ def c18(ctx):
     long_run_battery(ctx, ["cc14", "pn", "poll"])
     far_time_battery(ctx)
     real_clock_run(ctx)
+    nostd_run(ctx, "cc14", ctx.q(10000, 100000))
+    nostd_run(ctx, "pn", ctx.q(10000, 100000))
     if bad and not ctx.viol:
         raise ToolError("edge replay saw allocations/panics (%s) that no recorded trace reproduces" % bad[:2])
     for t, per in (("short", 8192), ("structured", 8192), ("types", 8192), ("factory", 16384), ("ints", 20000), ("pnmsg", 16384)):
